@@ -7,6 +7,7 @@ package main
 // Totality is exercised on random and mutated inputs up to 64 KiB under a watchdog.
 
 import (
+	"bytes"
 	"encoding/json"
 	"fmt"
 	"math/rand"
@@ -266,6 +267,14 @@ func exTotality(r *hx.Result, rng *rand.Rand, rounds int) {
 			in = []byte(strings.Repeat("T{a=", depth) + "1" + strings.Repeat("}", depth))
 			if i%13 == 3 { // cut off inside: error recovery walks the whole context chain (quadratic, ~1 s at depth 1500)
 				in = in[:4*min(depth, 1500)]
+			}
+		}
+		if i < 256*6 {
+			// homogeneous inputs: one byte value repeated, at lengths around typical internal limits; every third one
+			// followed by a well-formed expression
+			in = bytes.Repeat([]byte{byte(i % 256)}, []int{1, 255, 256, 257, 300, 1025}[i/256])
+			if i%3 == 0 {
+				in = append(in, []byte(" T{a=1}")...)
 			}
 		}
 		var got map[string]string
